@@ -464,7 +464,7 @@ fn write_bcf(header: &vcf::Header, rb: &vcf::variant::RecordBuf) -> Result<Resul
 fn vcf_text(header: &vcf::Header, rec: &dyn vcf::variant::Record) -> Result<String, String> {
     match guarded(|| {
         let mut w = vcf::io::Writer::new(Vec::new());
-        w.write_variant_record(header, rec).map(|_| String::from_utf8_lossy(w.get_ref()).trim_end().to_string())
+        w.write_variant_record(header, rec).map(|_| String::from_utf8_lossy(w.get_ref()).trim_end_matches('\n').to_string())
     }) {
         Ok(Ok(s)) => Ok(s),
         Ok(Err(e)) => Err(format!("err: {e}")),
